@@ -232,7 +232,7 @@ def runModel (st : St) (op impl : List String) : Option (St × String) :=
     let fs := flags.splitOn ","
     let fx : Fixes := { p10 := fs.contains "p10", p11 := fs.contains "p11", p12 := fs.contains "p12",
                         p18 := fs.contains "p18", p19 := fs.contains "p19", offerNil := fs.contains "offerNil",
-                        tokClone := fs.contains "tokClone" }
+                        tokClone := fs.contains "tokClone", removeAll := fs.contains "removeAll" }
     some ({ st with w := { w with fix := fx } }, "ok")
   | _ => none
 
